@@ -16,8 +16,9 @@ RULES = {
     'R7': 'an EMPTY slot accepts no handle: put, destroy and refcount_get cut every reference-count operation / destructor / count read with a state test that excludes EMPTY; a create that fails after claiming a slot gives the claim back',
     'R8': 'a reused slot gets a check value it has not had: the value create stores is computed from the slot\'s previous check (a generation) and the release path does not reset that field to a constant',
     'W1': 'handle packing: check << 32 | index when created; >> 32 and & UINT32_MAX when resolved; qb_handle_t is 64 bits',
+    'R9': 'the destructor runs once: when the count reaches zero in qb_hdb_handle_put the slot is made non-ACTIVE before the destructor is called (so that a get from inside it is refused, as it is on the destroy path), and a put on a slot whose count is already below 1 is refused',
 }
-FLOORS = {'R1': 20, 'R2': 3, 'R3': 4, 'R4': 2, 'R5': 2, 'R6': 1, 'R7': 4, 'R8': 2, 'W1': 9}
+FLOORS = {'R1': 20, 'R2': 3, 'R3': 4, 'R4': 2, 'R5': 2, 'R6': 1, 'R7': 4, 'R8': 2, 'R9': 2, 'W1': 9}
 
 PUBLIC = ['qb_hdb_handle_get', 'qb_hdb_handle_put', 'qb_hdb_handle_destroy', 'qb_hdb_handle_refcount_get']
 
@@ -144,6 +145,7 @@ def run(ctx):
     r6(ctx)
     r7(ctx)
     r8(ctx)
+    r9(ctx)
     w1(ctx)
 
 
@@ -391,3 +393,64 @@ def r8(ctx):
     ctx.check('R8', 'generation-never-reset', not resets or not from_prev, resets[0] if resets else c,
               'no other function overwrites a slot\'s check value',
               'the slot\'s check value is reset when the object is released: the generation restarts and handle values repeat')
+
+
+def r9(ctx):
+    from rules.common import dec_and_test_atom
+    prog = ctx.prog
+    states = prog.enum('QB_HDB_HANDLE_STATE')
+    ACTIVE = states['QB_HDB_HANDLE_STATE_ACTIVE']
+    f = prog.fn('qb_hdb_handle_put')
+    dtor = [ev for ev in f.events('CALL') if ev.callee in ('qb_hdb::destructor',) or (ev.callee or '').endswith('::destructor')]
+    if len(dtor) != 1:
+        raise AnalysisBroken('qb_hdb_handle_put: destructor call sites = %d' % len(dtor))
+    # from the count-reached-zero edge to the destructor a store of a non-ACTIVE state is passed
+    zero = []
+    for b in f.blocks.values():
+        if b.cond is None:
+            continue
+        for (t, lab) in b.succs:
+            if lab in (True, False) and any(dec_and_test_atom(a, 'qb_hdb_handle', 'ref_count') for a in atoms_of(b.cond, lab)):
+                zero.append((b.id, t))
+    if not zero:
+        raise AnalysisBroken('qb_hdb_handle_put: the count-reached-zero edge was not found')
+
+    def retire(ev):
+        return ev.kind == 'STORE' and last_field(ev.lhs) == ('qb_hdb_handle', 'state') and cval(unwrap(ev.rhs)) not in (None, ACTIVE)
+    bad = False
+    for (b, t) in zero:
+        hits, _e, _n = f.search(('edge', b, t), goal=lambda ev: ev is dtor[0], stop=retire)
+        bad = bad or bool(hits)
+    ctx.check('R9', 'slot-retired-before-destructor', not bad, dtor[0], 'the slot is non-ACTIVE when the destructor runs',
+              'qb_hdb_handle_put calls the destructor with the slot still ACTIVE: a get of the dying handle from inside the destructor succeeds and the put that goes with it '
+              'takes the count to zero again - the destructor runs a second time')
+    # a count below 1 is refused before it is decremented
+    decs = [ev for ev in f.events() if any(n.get('k') == 'call' and (refcount_op(n, 'qb_hdb_handle', 'ref_count') or (None,))[0] == 'dec'
+                                           for n in walk(ev.d.get('e') or ev.d.get('rhs') or {}))]
+    dblk = [b for b in f.blocks.values() if b.cond is not None and any(dec_and_test_atom(a, 'qb_hdb_handle', 'ref_count') for a in atoms_of(b.cond, True))]
+
+    def positive(a, fb):
+        l = unwrap(a.l)
+        op = refcount_op(l, 'qb_hdb_handle', 'ref_count') if l.get('k') == 'call' else None
+        isget = (op and op[0] == 'get') or last_field(a.l) == ('qb_hdb_handle', 'ref_count')
+        return isget and ((a.op == '>=' and a.rc is not None and a.rc >= 1) or (a.op == '>' and a.rc is not None and a.rc >= 0))
+    ok = bool(dblk)
+    for b in dblk:
+        # is the block with the decrement reachable without an edge that says the count is >= 1?
+        seen, work, reach = set(), [f.entry], False
+        while work:
+            x = work.pop()
+            if x in seen:
+                continue
+            seen.add(x)
+            if x == b.id:
+                reach = True
+                break
+            blk = f.blocks[x]
+            for (t, lab) in blk.succs:
+                if blk.cond is not None and lab in (True, False) and any(positive(a, blk) for a in atoms_of(blk.cond, lab)):
+                    continue
+                work.append(t)
+        ok = ok and not reach
+    ctx.check('R9', 'put-needs-a-count', ok, dtor[0], 'a put is refused unless the count is at least 1',
+              'qb_hdb_handle_put decrements a count that may already be 0: from inside the destructor (or on a slot pending removal) it goes negative or back to zero')
